@@ -369,7 +369,7 @@ var Prop = &harness.Prop{
 			}
 			u = append(u, flipUnit(k))
 		}
-		u = append(u, bigUnit(), tlsUnit(), carryUnit(tier == "thorough"))
+		u = append(u, bigUnit(), tlsUnit(), carryUnit(tier == "thorough"), freshGCMUnit())
 		for b := 0; b < 16; b++ {
 			u = append(u, subkeyUnit(b))
 		}
